@@ -1,6 +1,6 @@
 /-
-  C05 / C06 — syntax trees of bridgepoint/oal.py (the statement set the prebuilder supports, events and
-  port messages excluded) and the token alphabet of the text that bridgepoint/sourcegen.py prints.
+  C05 / C06 — syntax trees of bridgepoint/oal.py (the statement set the prebuilder supports, event statements
+  included; port messages excluded) and the token alphabet of the text that bridgepoint/sourcegen.py prints.
 
   The trees carry exactly the fields of the `oal.py` node classes (operators, boolean literals and select
   cardinalities as the source spelled them; phrases as the parser delivers them, i.e. always ticked);
@@ -120,6 +120,8 @@ inductive Tok where
 structure Ctx where
   ees : List String
   classes : List String
+  /-- state-machine events of the model: derived label ↦ meaning as sourcegen prints it (`'` Mning `'`) -/
+  events : List (String × String) := []
   deriving Repr, Inhabited
 
 end Pyx.Prebuild
